@@ -43,7 +43,7 @@ func c18Decoders(c *Ctx) {
 	const rule = "C18-D1"
 	total := 0
 	for _, f := range encDecoders(c) {
-		paths, complete, abandoned := pathsOfAll(c.P, f, nil, execOpts{MaxVisits: 12, Pure: c.Mod.PureCall})
+		paths, complete, abandoned := pathsOfAll(c.P, f, nil, execOpts{MaxVisits: 12, Pure: c.Mod.PureCall, InlineCallee: inlineNewHelpers})
 		c.R.count("paths", len(paths))
 		name := shortFn(f)
 		if !complete || abandoned > 0 {
@@ -209,7 +209,7 @@ func c18Encoders(c *Ctx) {
 	total := 0
 	for _, f := range encEncoders(c) {
 		name := shortFn(f)
-		paths, complete, abandoned := pathsOfAll(c.P, f, nil, execOpts{MaxVisits: 12, Pure: c.Mod.PureCall})
+		paths, complete, abandoned := pathsOfAll(c.P, f, nil, execOpts{MaxVisits: 12, Pure: c.Mod.PureCall, InlineCallee: inlineNewHelpers})
 		c.R.count("paths", len(paths))
 		if !complete || abandoned > 0 {
 			c.R.undecided(rule, name+"/exhaustive", name, c.fpos(f), "complete unrolling of the encoder", fmt.Sprintf("complete=%v abandoned=%d", complete, abandoned))
@@ -466,7 +466,7 @@ func c18Inverse(c *Ctx) {
 			}
 		}
 		foundD := ""
-		ps, _, _ := pathsOfAll(c.P, df, nil, execOpts{MaxVisits: 12, Pure: c.Mod.PureCall})
+		ps, _, _ := pathsOfAll(c.P, df, nil, execOpts{MaxVisits: 12, Pure: c.Mod.PureCall, InlineCallee: inlineNewHelpers})
 		nD := 0
 		okD = true
 		for _, p := range ps {
